@@ -17,6 +17,10 @@ Legs (DESIGN 3.3):
       `s.m…`, `p->m…`, `(*p).m`, `a[i]`, `q[i]`, `*q`, `sa[i].m…`, `p[i].m…`, `*(q + i)` read, assigned and compound-assigned, index and
       right-hand side any generated expression, = the model (gen_addr, the op= rewriting through the hidden pointer incl. the
       member special case, member offsets by the psABI rule); plus a three-way oracle (Spec / gcc / chibicc) on the same forms.
+  (b5) lvalues other than variables anywhere in an expression (Model/C01ExprA `compileA`; C01_value_lvalues): text of generated
+      nests whose leaves are objects reached through `s.m…`, `p->m…`, `a[c]`, `q[c]`, `*q`, `sa[c].m…`, `p[c].m…` (operands, assigned,
+      compound-assigned, incremented) = the model; plus a three-way oracle on nests over the members of a struct and the elements
+      of an array written through different lvalues.
   (c) Model/X86 <-> CPU: every sequence the theorems talk about is assembled and run on the host on boundary + random
       register files; registers and defined flags must equal `drv_c01 x86exec`; #DE must coincide with `none`.  Model/X86Jump
       (labels and jumps): cmp / test followed by each of the fourteen jCC, and cmp_zero + je / jne on every operand type,
@@ -53,12 +57,15 @@ TRUSTED_BASE = [
     'Model/C01Lvalue.lean (compileL: gen_addr of ND_MEMBER / ND_DEREF / subscripts, reads, ND_ASSIGN and the to_assign rewriting '
     'through the hidden pointer for lvalues other than variables; lvAddr: the address C11 gives the lvalue); tied by text equality '
     'with `chibicc -S` on generated functions over struct / array / pointer objects and by a three-way run-time oracle',
+    'Model/C01ExprA.lean (compileA: gen_expr over objects reached through lvalues other than variables - compileJ with the gen_addr '
+    'code of each object\'s lvalue; accOfL: that code from a table of lvalues); tied by text equality with `chibicc -S` on generated nests',
     'Model/X86Jump.lean (programs with labels and jumps on top of Model/X86: label resolution by position, jCC reads the flags '
     'like setCC); validated on every run against the host CPU (cmp / test + each jCC, cmp_zero + je / jne, real labels)',
     'translators tools/extract/commontype.py (get_common_type, add_type rules, primitive types) and casttable.py '
     '(cast_table, getTypeId); argument / return / initializer conversion insertion of parse.c is modelled as a cast of the '
-    'expression (tied by the text legs); postfix ++/-- on _Bool, and lvalues other than variables nested inside operands '
-    '(proved at the root of an expression only) are covered by the text ties and the end-to-end oracle only (testing)',
+    'expression (tied by the text legs); postfix ++/-- on _Bool, lvalues whose address computation has side effects or depends on '
+    'a variable the expression assigns when they are not the root of the expression, and bit-field members are covered by the '
+    'text ties and the end-to-end oracle only (testing)',
 ]
 ASSUMPTIONS = ['LP64, plain char signed, two\'s complement, arithmetic >> on signed (gcc\'s documented choices)',
                'expressions without unsequenced conflicting accesses (the generator modifies a variable at most once and '
@@ -2041,12 +2048,15 @@ MANIFEST = {
                   '++p, --p, p++, p-- through the hidden pointer temporary store and yield the C11 address (C01_ptr_opassign, '
                   'C01_ptr_postfix); an lvalue s.m / a[i] / *p / p->m / p[i] (any nesting, index any expression) read, assigned or '
                   'compound-assigned at the root of an expression behaves as on the variable it designates - gen_addr computes the '
-                  'C11 address, the member rewriting of op= included (C01_lvalue_load, C01_lvalue_assign, C01_lvalue_opassign).  Tied every run '
+                  'C11 address, the member rewriting of op= included (C01_lvalue_load, C01_lvalue_assign, C01_lvalue_opassign); and '
+                  'C01_value_full holds with such lvalues ANYWHERE in the expression (operands, =, op=, ++ --) when their address '
+                  'computations are side-effect-free and do not depend on a variable the expression assigns (C01_value_lvalues; '
+                  'C01_value_lvalues_extends: with plain variables it is C01_value_full).  Tied every run '
                   'by translators (tables), asm-text equality of 1,458 one-operator functions, of generated expression trees and of 550+ pointer-arithmetic functions with chibicc -S, CPU execution of every '
                   'modelled sequence, and a three-way chibicc / Spec / gcc oracle on generated expression programs in every context.',
     'level_note': 'Not proved: postfix ++/-- on _Bool objects (two temporaries), '
-                  'lvalues other than variables nested inside operands (proved as the root of an expression: read, =, op=), postfix '
-                  '++/-- on such lvalues, bit-field members, the typing function elab of parse.c as a whole (its table is proved: C01_op_type): '
+                  'lvalues with side effects in their address computation (a[i++]) or depending on an assigned variable when not the '
+                  'root of the expression, bit-field members, the typing function elab of parse.c as a whole (its table is proved: C01_op_type): '
                   'covered by the text ties and the end-to-end oracle (testing). '
                   'Trusted: Spec/IntSpec (validated against gcc), Model/X86 (validated against the CPU), Model/C01Codegen (asm text tie).',
     'technique': 'Lean 4 bit-vector proofs (simp + omega over toNat/toInt, no bv_decide/native_decide) over regenerated tables; '
